@@ -39,6 +39,9 @@ type Req struct {
 	Fillers int `json:"fillers,omitempty"`
 	// TrailerSpoofs: the request has a body and a trailer section (announced in Trailer) with these fields
 	TrailerSpoofs []Spoof `json:"trailer_spoofs,omitempty"`
+	// ProbeUA: the request says it comes from the kubelet (User-Agent: kube-probe/...). Probe support is off in
+	// this check, so it is forwarded like any other request and gets no exemption from anything
+	ProbeUA bool `json:"probe_ua,omitempty"`
 }
 
 type Script struct {
@@ -125,6 +128,7 @@ func gen(t *rapid.T) Script {
 	for i := 0; i < nr; i++ {
 		r := Req{Method: rapid.SampledFrom([]string{"GET", "POST", "DELETE"}).Draw(t, "m"), Path: fmt.Sprintf("/r%d", i)}
 		r.Fillers = rapid.SampledFrom([]int{0, 0, 0, 8, 24, 40}).Draw(t, "fillers")
+		r.ProbeUA = rapid.IntRange(0, 4).Draw(t, "probe-ua") == 0
 		ns := rapid.IntRange(0, 4).Draw(t, "nspoof")
 		for j := 0; j < ns; j++ {
 			var n string
@@ -238,6 +242,9 @@ func exec(t *testing.T, s Script) *vstat.Violation {
 		o.proto = cc.TLS.Proto
 		for _, r := range s.Reqs {
 			rs := rig.ReqSpec{Method: r.Method, Path: r.Path, Authority: "example.com", BlockCuts: r.Cuts}
+			if r.ProbeUA {
+				rs.Headers = append(rs.Headers, [2]string{"User-Agent", "kube-probe/1.27"})
+			}
 			for j := 0; j < r.Fillers; j++ {
 				rs.Headers = append(rs.Headers, [2]string{fmt.Sprintf("x-filler-%s-%d", strings.Trim(r.Path, "/"), j), "f"})
 			}
@@ -399,6 +406,12 @@ func exec(t *testing.T, s Script) *vstat.Violation {
 			break
 		}
 		fill += r.Fillers
+	}
+	for _, r := range s.Reqs {
+		if r.ProbeUA && len(r.Spoofs) > 0 {
+			cl = append(cl, "client-value-on-a-request-with-a-probe-user-agent")
+			break
+		}
 	}
 	col.Case(fmt.Sprintf("%+v", s), nontrivial, s, cl...)
 	return nil
